@@ -25,7 +25,8 @@ LEVEL = "exploration"
 WORKERS = 12
 CASE_TIMEOUT = 400
 QUIESCENCE_AFTER = 90.0
-REQUIRED_OBS = ["real_process_runs", "writer_processes", "distinct_worker_pids", "traced_runs", "differential_comparisons"]
+REQUIRED_OBS = ["real_process_runs", "writer_processes", "distinct_worker_pids", "traced_runs", "differential_comparisons",
+                "second_calls_on_a_dataset"]
 RULE = ("writer lists (1..6 writers, uneven loads, several splits per writer, empty writers) x formats x delay "
         "pattern (entry / between writes / before exit, slowest-first, synchronised start) x optional CPU load. "
         "Distinct = (format, per-writer per-split counts, delay pattern, seed); non-trivial iff >=2 writers wrote >=1 "
@@ -61,6 +62,10 @@ def gen_cases(tier: str, seed: int) -> list[dict]:
         cases.append({"fmt": fmt, "eps": rng.choice([1, 2, 3]), "writers": writers, "pattern": pattern, "delays": delays,
                       "trace": k % 3 == 0, "cpu_load": rng.random() < 0.25, "seed": rng.randrange(1 << 30),
                       "cpu_count": 2 if (n_writers >= 3 and rng.random() < 0.5) else None})
+        if k % 3 == 1:
+            # the multi-writer call is made twice on the same dataset (its splits already hold per-writer lists)
+            cases[-1]["earlier_call"] = [[{"split": rng.choice(["train", "test", "holdout"])} for _ in range(rng.randint(1, 6))]
+                                         for _ in range(rng.randint(1, 3))]
     # more writers than (reported) CPUs, first writers slow after their first shards: later writers start while
     # earlier ones are still running
     for k in range(4 if tier == "quick" else 40):
@@ -85,7 +90,11 @@ def run_case(case: dict) -> dict:
     violations, obs = [], Counter()
     try:
         session = {"kind": "multi", "writers": case["writers"], "single_process": False, "delays": case["delays"]}
-        hist = {"fmt": fmt, "comp": "", "eps": case["eps"], "sessions": [session]}
+        sessions = [session]
+        if case.get("earlier_call"):
+            sessions = [{"kind": "multi", "writers": case["earlier_call"], "single_process": False, "delays": {}}, session]
+            obs["second_calls_on_a_dataset"] += 1
+        hist = {"fmt": fmt, "comp": "", "eps": case["eps"], "sessions": sessions}
         root_par, root_seq = work / "par", work / "seq"
         spec = work / "spec.json"
         spec.write_text(json.dumps({"root": str(root_par), "hist": hist, "cpu_count": case.get("cpu_count"),
@@ -164,8 +173,8 @@ def run_case(case: dict) -> dict:
         ends = sorted((r["t_end"], r["writer"]) for r in returns)
         interleaving = [w for _, w in firsts] + ["|"] + [w for _, w in ends]
         # ---- sequential reference
-        session_seq = dict(session, single_process=True, delays={})
-        H.run_history(root_seq, {"fmt": fmt, "comp": "", "eps": case["eps"], "sessions": [session_seq]})
+        H.run_history(root_seq, {"fmt": fmt, "comp": "", "eps": case["eps"],
+                                 "sessions": [dict(one, single_process=True, delays={}) for one in sessions]})
         par, seq = Dataset(root_par), Dataset(root_seq)
         report = auditor.audit(root_par)
         for key, msg in report.problems:
@@ -185,7 +194,9 @@ def run_case(case: dict) -> dict:
                 violations.append({"key": "multiset-differs-from-sequential-run",
                                    "msg": f"{label} split {split}: parallel-only {list((Counter(ids_par) - Counter(ids_seq)).elements())[:4]} "
                                           f"sequential-only {list((Counter(ids_seq) - Counter(ids_par)).elements())[:4]}"})
-            elif ids_par != ids_seq:
+            elif any([i for i in ids_par if dsmod.split_id(i)[1] == k] != [i for i in ids_seq if dsmod.split_id(i)[1] == k]
+                     for k in range(len(sessions))):
+                # (the relative order of different calls' examples is not part of the statement)
                 violations.append({"key": "order-differs-from-sequential-run",
                                    "msg": f"{label} split {split}: writers yielded {[dsmod.split_id(i)[2] for i in ids_par]} vs "
                                           f"{[dsmod.split_id(i)[2] for i in ids_seq]} (finish order {[w for _, w in ends]})"})
